@@ -99,6 +99,16 @@ ElemTemplate::ElemTemplate(
             assert(atts.getValue(i) != 0);
 
             m_priority = DoubleSupport::toDouble(atts.getValue(i), constructionContext.getMemoryManager());
+
+            if (DoubleSupport::isNaN(m_priority) == true)
+            {
+                error(
+                    constructionContext,
+                    XalanMessages::ElementHasIllegalAttributeValue_3Param,
+                    Constants::ELEMNAME_TEMPLATE_WITH_PREFIX_STRING.c_str(),
+                    aname,
+                    atts.getValue(i));
+            }
         }
         else if (equals(aname, Constants::ATTRNAME_MODE))
         {
